@@ -1168,8 +1168,14 @@ func (e *Engine) rebindContracts(base map[string]Shape) {
 	}
 	for _, key := range pending {
 		if e.contracts.funcs[key].Detached {
+			if strings.Contains(key, "$") && nb[key] == nil {
+				// a closure that no longer exists under its parent was restructured away (a named function
+				// that disappears, in contrast, is simply no longer called)
+				e.contracts.funcs[key].DetachedAmbiguous = true
+			}
 			if fn := nb[key]; fn != nil && !claimed[fn] {
 				// the function now found under this key is not the one the contract describes
+				e.contracts.funcs[key].DetachedAmbiguous = true
 				delete(nb, key)
 				nb[key+"~unmatched"] = fn
 				fnNameOverride[fn] = key + "~unmatched"
